@@ -1,4 +1,4 @@
-import Prom.HP.Main
+import Prom.HP.Order
 /-
 C03 — Histograms conserve observations across any sequence of collects and flushes.
 Same model as C02 (`Prom/HP`); this is its history side.
@@ -17,6 +17,25 @@ theorem quiescent_total {k : Nat} {s : St} (h : Reach k s) (hl : s.lock = false)
     (pendW s.hot s.tasks = 0 → (s.sh s.hot).count = totW s.claimed ∧
       ∀ c, (s.sh s.hot).cell c = tot s.claimed c) :=
   Hp.quiescent_total h hl
+
+
+/-- **snapshots_grow** — snapshots in the order in which the collections returned describe nested
+    sets: the cut of an earlier one is a prefix (in claim order) of the cut of every later one, for
+    any number of collectors and observers and any interleaving. Nothing a snapshot has shown
+    disappears from a later one. -/
+theorem snapshots_grow {k : Nat} {s : St} (h : Reach k s) :
+    s.snaps.Pairwise (fun p q => p.2 <+: q.2) :=
+  (ord_reach h).chain
+
+/-- … and their counts are therefore non-decreasing -/
+theorem snapshot_counts_grow {k : Nat} {s : St} (h : Reach k s) :
+    s.snaps.Pairwise (fun p q => p.1.count ≤ q.1.count) := by
+  have hs := Hp.snapshot_is_prefix h
+  refine (snapshots_grow h).imp_of_mem ?_
+  intro p q hp hq hpq
+  rw [(hs p hp).1, (hs q hq).1]
+  obtain ⟨t, ht⟩ := hpq
+  rw [← ht, totW_append]; omega
 
 /-- **merge_carries_all** — with no collector active the non-hot shard is completely empty (no
     assigned observation, nothing pending, count and every cell zero): the residue of a drained shard
